@@ -56,6 +56,19 @@ func (s *swamp) PatchExpired(howMany int32, ops []msgpackpatch.Op, condition *ms
 	// expiration-time indexes are built before we try to select.
 	s.buildBeacon(s.expirationTimeBeaconASC, s.expirationTimeBeaconDESC, BeaconTypeExpirationTime)
 
+	if capPredicate != nil {
+		// The beacon's own pre-count only sees treasures held by the expiration
+		// index. Cap.MaxMatching bounds the matching treasures of the whole swamp,
+		// so the ones outside of this index (no ExpiredAt) use up budget as well.
+		// capMu is held: no other cap-bearing flow can move treasures in meanwhile.
+		if outside := int32(s.beaconKey.CountMatching(capPredicate) - s.expirationTimeBeaconASC.CountMatching(capPredicate)); outside > 0 {
+			capMax -= outside
+			if capMax <= 0 {
+				return nil, true, nil
+			}
+		}
+	}
+
 	selected, capReached := s.expirationTimeBeaconASC.SelectExpiredForPatchWithCap(int(howMany), selectionPredicate, capPredicate, int(capMax))
 	if len(selected) == 0 {
 		return nil, capReached, nil
